@@ -1,9 +1,11 @@
 ---------------------------- MODULE MC_TnetReader ---------------------------
 (* Streams of two messages the streaming reader supports (byte strings -- containing the separator --, integers, null,  *)
-(* multi-byte text), with and without a newline separator the reader is told to ignore; every schedule of <= 3 chunks   *)
+(* multi-byte text, text beginning with U+FEFF), with and without separators (one or several symbols) the reader is   *)
+(* told to ignore; every schedule of <= 3 chunks                                                                      *)
 (* and <= 2 receive timeouts.                                                                                           *)
 EXTENDS TnetReader, FiniteSetsExt
 By(x) == [t |-> "bytes", b |-> x]
-Msgs == { By(<<97, 10, 98>>), By(<<10>>), By(<<10, 97>>), [t |-> "int", neg |-> FALSE, digits |-> <<55>>], [t |-> "null"], [t |-> "text", cp |-> <<960>>] }
-MCStreams == { [msgs |-> <<a, b>>, sep |-> sp[1], ignore |-> sp[2]] : a \in Msgs, b \in Msgs, sp \in { << <<>>, {} >>, << <<>>, {10} >>, << <<10>>, {10} >> } }
+Msgs == { By(<<97, 10, 98>>), By(<<10>>), By(<<10, 97>>), [t |-> "int", neg |-> FALSE, digits |-> <<55>>], [t |-> "null"], [t |-> "text", cp |-> <<960>>], [t |-> "text", cp |-> <<65279, 97>>] }
+MCStreams == { [msgs |-> <<a, b>>, sep |-> sp[1], ignore |-> sp[2]] : a \in Msgs, b \in Msgs, sp \in { << <<>>, {} >>, << <<>>, {10} >>, << <<10>>, {10} >>,
+                                                                                               << <<13, 10>>, {10, 13} >>, << <<10, 10, 10>>, {10} >> } }     \* several separator symbols in a row
 =============================================================================
